@@ -119,13 +119,44 @@ def lib_call(rep, site, detail, fn, *a, **kw):
     except (MachineryError, PrivateGone):
         raise
     except Exception as ex:
+        if isinstance(ex, AttributeError) and type(getattr(ex, "obj", None)).__module__.startswith("harness"):
+            raise PrivateGone(f"the library now uses an attribute that the harness double lacks: {ex}") from None
         where = raised_in_library(ex)
         if where is None:
+            if isinstance(ex, TypeError):
+                # raised at the call itself (innermost frame in the harness): the signature is not the one the adapter knows
+                raise PrivateGone(f"the call signature known to the harness does not fit any more: {ex}") from None
             raise
         d = dict(detail)
         d.update(error=f"{type(ex).__name__}: {str(ex)[:300]}", raised_in=where)
         rep.violation(f"raises:{site}:{type(ex).__name__}", d)
         return False, None
+
+
+class Guard:
+    """lib_call for sub-checks that go through private names or doubles: when such a name is gone (PrivateGone) the
+    sub-check `name` is switched off for the rest of the run and listed in the part skipped_private"""
+
+    def __init__(self, rep):
+        self.rep = rep
+        self.off = {}
+
+    def available(self, name):
+        return name not in self.off
+
+    def skip(self, name, why):
+        if name not in self.off:
+            self.off[name] = str(why)
+            skipped_private(self.rep, name, why)
+
+    def call(self, name, site, detail, fn, *a, **kw):
+        if name in self.off:
+            return False, None
+        try:
+            return lib_call(self.rep, site, detail, fn, *a, **kw)
+        except PrivateGone as ex:
+            self.skip(name, ex)
+            return False, None
 
 
 def run_parts(rep, body):
